@@ -363,9 +363,8 @@ def run(tier, only=None):
             for fw in ("qiskit", "cirq"):
                 for mode in ("circuit", "gate"):
                     jobs.append((job_fw, (fw, mode, nq, chunk)))
-            if nq == 3:
-                jobs.append((job_fw, ("sympy", "gate", nq, chunk)))
-                jobs.append((job_sympy_state, (nq, chunk)))
+            jobs.append((job_fw, ("sympy", "gate", nq, chunk)))        # 4 qubits too: multi-controlled X with 3 controls
+            jobs.append((job_sympy_state, (nq, chunk)))
             jobs.append((job_qasm, (nq, chunk)))
     # QFT circuits
     for n in (2, 3, 4):
